@@ -240,6 +240,9 @@ class NetworkClient(KGLambda):
         try:
             msg = await self.websocket.recv()
             msg = decode_message(msg)
+            if msg is None:
+                # JSON null: None as an argument means "omitted" and .ws.m would not be invoked
+                msg = KLONG_UNDEFINED
             if on_message is not None:
                 try:
                     await on_message(self, msg)
